@@ -1,6 +1,7 @@
 import SlotVerif.Model.Analysis
 import SlotVerif.Props.C06
 import SlotVerif.Model.SnapInv
+import SlotVerif.Model.Eval
 /-!
 # C14 — Analysis data is the fixpoint of make/merge over each class
 
@@ -13,7 +14,9 @@ operation is validated per run on the dumped state (every class, not a sample).
 live class is the size of a smallest term the class represents** — it is attained by an extraction tree and no
 extraction tree of the class is smaller (through the verified cost-table checker of C06: the data of a fixpoint
 state *are* a table that `checkTable` accepts, `fixpoint_checks`).  So the per-run comparison "datum = extractor's
-best cost" compares two values that are both proved to be the minimum.
+best cost" compares two values that are both proved to be the minimum.  `constFold_sound`: the constant-folding
+`make` computes the node's value in the model algebra of C03 from correct children data, and
+`const_datum_from_node`: a class's constant datum is the `make` of one of its e-nodes.
 -/
 namespace SV.C14
 open SV SV.Analysis
@@ -332,6 +335,80 @@ def demo : Snap :=
 #guard isFixpoint .minSize demo && Snap.checkInv demo && dataOf .minSize demo 1 == some 2 &&
   Extract.checkTable .ast demo (dataTable demo)
 example : (demo.classes.map (·.id)).Nodup ∧ demo.pending = [] := by decide
+
+/-! ### constant folding is sound for the model algebra -/
+
+theorem ofNat_add (a b : Nat) : (Fin.ofNat 7 a : Eval.F) + Fin.ofNat 7 b = Fin.ofNat 7 ((a + b) % 7) := by
+  apply Fin.ext; simp [Fin.ofNat, Fin.add_def, Nat.add_mod]
+
+theorem ofNat_mul (a b : Nat) : (Fin.ofNat 7 a : Eval.F) * Fin.ofNat 7 b = Fin.ofNat 7 ((a * b) % 7) := by
+  apply Fin.ext; simp [Fin.ofNat, Fin.mul_def, Nat.mul_mod]
+
+/-- **`make` of the constant-folding analysis computes the node's value in the model algebra of C03**: if the data of
+the children are their values, the datum made for the node is its value -/
+theorem constFold_sound (n : Node) (kids : List Data) (vals : List Eval.F) (kid : Nat → List Eval.F → Eval.F)
+    (hk : ∀ i a, kids[i]? = some (some a) → kid i [] = Fin.ofNat 7 a) {v : Nat}
+    (h : make .const n kids = some v) : Eval.evalNode n vals kid = Fin.ofNat 7 v := by
+  unfold make at h
+  simp only at h
+  split at h
+  · -- number
+    rename_i hv
+    unfold Eval.evalNode
+    rw [hv]
+    simp only
+    unfold litNat at h
+    unfold Eval.nodeLit Eval.litVal
+    split at h
+    · rename_i s hf
+      rw [hf]
+      simp only
+      cases hs : s.toNat? with
+      | none => rw [hs] at h; simp at h
+      | some k =>
+        rw [hs] at h
+        simp only [Option.map_some, Option.some.injEq] at h
+        rw [← h]
+        apply Fin.ext; simp [Fin.ofNat]
+    · simp at h
+  · rename_i a b hv
+    simp only [Option.some.injEq] at h
+    unfold Eval.evalNode
+    rw [hv]
+    simp only
+    rw [hk 0 a (by simp), hk 1 b (by simp), ofNat_add, h]
+  · rename_i a b hv
+    simp only [Option.some.injEq] at h
+    unfold Eval.evalNode
+    rw [hv]
+    simp only
+    rw [hk 0 a (by simp), hk 1 b (by simp), ofNat_mul, h]
+  · simp at h
+
+/-- the constant datum of a class is made by one of its e-nodes (the join of the constant analysis keeps the first
+known constant) -/
+theorem const_join_attained : ∀ (l : List Data) (init : Data) (k : Nat), l.foldl (merge .const) init = some k →
+    init = some k ∨ some k ∈ l
+  | [], init, k, h => Or.inl h
+  | a :: t, init, k, h => by
+    simp only [List.foldl_cons] at h
+    rcases const_join_attained t _ k h with h' | h'
+    · cases init with
+      | some x => simp only [merge] at h'; exact Or.inl h'
+      | none => simp only [merge] at h'; exact Or.inr (by simp [h'])
+    · exact Or.inr (List.mem_cons_of_mem _ h')
+
+theorem const_datum_from_node (s : Snap) (c : SClass) (k : Nat) (h : joinOfClass .const s c = some k) :
+    ∃ e ∈ c.nodes, make .const e.1 ((Node.appOcc e.1).map fun a => dataOf .const s a.id) = some k := by
+  unfold joinOfClass at h
+  have : c.nodes.foldl (fun acc e => merge .const acc (make .const e.1 ((Node.appOcc e.1).map fun a => dataOf .const s a.id))) none =
+      (c.nodes.map fun e => make .const e.1 ((Node.appOcc e.1).map fun a => dataOf .const s a.id)).foldl (merge .const) none := by
+    rw [List.foldl_map]
+  rw [this] at h
+  rcases const_join_attained _ none k h with h' | h'
+  · simp at h'
+  · obtain ⟨e, he, hm⟩ := List.mem_map.mp h'
+    exact ⟨e, he, hm⟩
 
 /-- non-vacuity: `make`/`merge` on concrete data -/
 example : make .minSize ⟨4, [.app ⟨0, []⟩, .app ⟨1, []⟩]⟩ [some 3, some 5] = some 9 ∧
